@@ -713,9 +713,11 @@ class Interp:
             # recorded separately (a tolerance that does not scale with the data is a robustness note)
             d.in_assert = True
             try:
-                self.eval(st.test, frame)
+                c = self.eval(st.test, frame)
             finally:
                 d.in_assert = False
+            if isinstance(c, bool) and not c:
+                raise RaiseSig("AssertionError")
             return
         c = self.eval(st.test, frame)
         if not self.truth(c):
